@@ -218,4 +218,108 @@ def computeModelSize (c : SzCfg) : List SzLayer → Option SizeOut
           some { total := r.total + tot, pSize := r.pSize + pw * p, aSize := r.aSize + aw * a,
                  rows := { name := L.name, parameters := p, activations := a, total := tot } :: r.rows }
 
+/-! ### V20 — the object WITH its size model: `get_reference(model)` / `get_trial(model)` on MODELS
+
+`get_reference` stores, besides `reference_size`, the per-layer statistics of the reference model
+(`reference_size_dict`, `ref_p`, `ref_a`); `get_trial` stores those of the trial (`trial_size_dict`,
+`total_p_bits`, `total_a_bits`).  `compute_model_size(model)` itself reads NOTHING of that state: the
+rows of a trial are computed from the tensors of the trial model, whatever was measured before on
+the same object (also for layers that carry the NAME of a reference layer and were left
+unquantized — under filter tuning their kernels / outputs differ from the reference's). -/
+
+/-- a `ForgivingFactorBits` object: size configuration, the three scalar attributes (`FFB`), and the
+    cached statistics (`none` = attribute not set) -/
+structure FFBM (α : Type) where
+  cfg : SzCfg
+  base : FFB α
+  /-- `reference_size_dict`, `ref_p`, `ref_a` (and the un-stressed total) -/
+  refStats : Option SizeOut := none
+  /-- `trial_size_dict`, `total_p_bits`, `total_a_bits` -/
+  trialStats : Option SizeOut := none
+  deriving Repr, Inhabited
+
+/-- `get_reference(model)`: cached → the stored value, `compute_model_size` is not even called;
+    else `compute_model_size(model)` (`none` = its assertion fails, nothing is stored), then
+    `reference_size = total * stress` and the statistics are kept -/
+def getReferenceM {α : Type} (ofInt : Int → α) (mul : α → α → α) (o : FFBM α) (layers : List SzLayer) :
+    Option (α × FFBM α) :=
+  match o.base.referenceSize with
+  | some r => some (r, o)
+  | none =>
+    match computeModelSize o.cfg layers with
+    | none => none
+    | some s =>
+      let r := getReference mul o.base (ofInt s.total)
+      some (r.1, { o with base := r.2, refStats := some s })
+
+/-- `get_trial(model)`: `compute_model_size(model)` of THIS model; total and statistics overwrite the
+    trial attributes -/
+def getTrialM {α : Type} (ofInt : Int → α) (o : FFBM α) (layers : List SzLayer) : Option (α × FFBM α) :=
+  match computeModelSize o.cfg layers with
+  | none => none
+  | some s =>
+    let r := getTrial o.base (ofInt s.total)
+    some (r.1, { o with base := r.2, trialStats := some s })
+
+/-- one public operation on the object, with models as arguments -/
+inductive MEv (α : Type)
+  | ref (layers : List SzLayer)      -- `get_reference(model)`
+  | trial (layers : List SzLayer)    -- `get_trial(model)`
+  | setStress (s : α)                -- `obj.stress = s`
+  deriving Repr, Inhabited
+
+/-- one step: returned value (`none` = exception / nothing returned) and the new state -/
+def stepM {α : Type} (ofInt : Int → α) (mul : α → α → α) (o : FFBM α) : MEv α → Option α × FFBM α
+  | .ref ls => match getReferenceM ofInt mul o ls with
+    | some r => (some r.1, r.2)
+    | none => (none, o)
+  | .trial ls => match getTrialM ofInt o ls with
+    | some r => (some r.1, r.2)
+    | none => (none, o)
+  | .setStress s => (none, { o with base := { o.base with stress := s } })
+
+/-- the state after a whole history -/
+def stateM {α : Type} (ofInt : Int → α) (mul : α → α → α) (o : FFBM α) (evs : List (MEv α)) : FFBM α :=
+  evs.foldl (fun o e => (stepM ofInt mul o e).2) o
+
+/-- a whole history: per event the returned value and the state after it -/
+def runM {α : Type} (ofInt : Int → α) (mul : α → α → α) : FFBM α → List (MEv α) → List (Option α × FFBM α)
+  | _, [] => []
+  | o, e :: t =>
+    let r := stepM ofInt mul o e
+    r :: runM ofInt mul r.2 t
+
+/-! #### Keras shape inference along a chain of Dense layers (what filter tuning changes downstream)
+
+`quantize_model` with `tune_filters` rewrites `units` of a SELECTED layer; the kernel of the NEXT
+Dense layer — quantized or not — is then built as (units of the previous layer) × (its own units). -/
+
+structure DenseSpec where
+  name : String
+  units : Nat
+  useBias : Bool := true
+  /-- `none`: the layer was left alone (class `Dense`); `some (k, b)`: `QDense` with the `.bits` of its
+      kernel / bias quantizers (`none` = no quantizer on that tensor) -/
+  q : Option (Option Int × Option Int) := none
+  /-- `layer.activation.__name__` (unquantized) -/
+  actName : String := "linear"
+  /-- `.bits` of the activation quantizer of a `QDense` -/
+  actBits : Option Int := none
+  deriving Repr, Inhabited
+
+/-- the size-model view of one Dense / QDense layer fed by `nIn` features -/
+def denseLayer (nIn : Nat) (d : DenseSpec) : SzLayer :=
+  { name := d.name,
+    cls := if d.q.isSome then "QDense" else "Dense",
+    weights := (nIn * d.units, d.q.bind Prod.fst) :: (if d.useBias then [(d.units, d.q.bind Prod.snd)] else []),
+    outElems := d.units,
+    actNone := false, actIsStr := false,
+    actName := if d.actBits.isSome then none else some d.actName,
+    actBits := d.actBits }
+
+/-- `Input(nIn) → Dense → Dense → …` -/
+def denseChain : Nat → List DenseSpec → List SzLayer
+  | _, [] => []
+  | n, d :: t => denseLayer n d :: denseChain d.units t
+
 end QKV.Forgiving
